@@ -526,7 +526,8 @@ fn enum_levels(spec: &str, shard: usize, nshards: usize) {
         if f.len() != 4 || f[0] != "E" { continue; }
         let maxlen: usize = f[1].parse().unwrap();
         let dirs: Vec<char> = f[2].chars().collect();
-        let alpha: Vec<char> = f[3].split(',').map(|h| char::from_u32(u32::from_str_radix(h, 16).unwrap()).unwrap()).collect();
+        // an alphabet entry is a character or a `+`-joined token of several characters (e.g. LRI a PDI)
+        let alpha: Vec<String> = f[3].split(',').map(|tok| tok.split('+').map(|h| char::from_u32(u32::from_str_radix(h, 16).unwrap()).unwrap()).collect::<String>()).collect();
         let n = alpha.len();
         for len in 1..=maxlen {
             let total = n.pow(len as u32);
@@ -535,7 +536,7 @@ fn enum_levels(spec: &str, shard: usize, nshards: usize) {
                 if counter % nshards != shard { continue; }
                 let mut c = code;
                 let mut s = String::new();
-                for _ in 0..len { s.push(alpha[c % n]); c /= n; }
+                for _ in 0..len { s.push_str(&alpha[c % n]); c /= n; }
                 for d in &dirs {
                     let lvl = match d { 'a' => None, '0' => Some(Level::ltr()), _ => Some(Level::rtl()) };
                     let r = guard(|| {
